@@ -21,12 +21,15 @@ var _ = Register("C01", func() interface{} { return new(ParseCase) }, func(c int
 
 func c01Oracle(c *ParseCase) string {
 	st := S("C01")
-	ref := Ref(&RefInput{D: c.D, Args: c.Args, Env: c.Env})
+	ref := Ref(&RefInput{D: c.D, Args: c.Args, Env: c.Env, Handler: c.Handler})
 	if ref.Undetermined != "" {
 		st.Label("skip: " + ref.Undetermined)
 		return ""
 	}
-	rr := RunReal(c.D, c.Args, c.Env, nil)
+	rr := RunReal(c.D, c.Args, c.Env, &RealCfg{Handler: c.Handler})
+	if c.Handler != nil && len(ref.Handler) > 0 {
+		st.Label("unknown options recovered by a handler between the occurrences")
+	}
 	if rr.Panic != "" || rr.SetupErr != nil {
 		// totality / setup are C04's and C19's subject
 		st.Label("skip: panic or setup error")
@@ -86,6 +89,19 @@ func c01Oracle(c *ParseCase) string {
 }
 
 func TestC01(t *testing.T) {
-	S("C01").Rule = "declaration (all option types incl. slices, maps, pointers, callbacks, custom unmarshaler; groups nested <= 2 with namespaces and delimiters . - :: and empty; commands depth <= 3 by tag and programmatic; random initial field values; untagged plain fields) x planned argv with repeated occurrences in mixed spellings and clusters x {HelpFlag, PassDoubleDash, PassAfterNonOption}; oracle: reference semantics R (values, callback log) + plain fields unchanged. non-trivial: successful parse with >= 2 occurrences including a multi-valued/callback option given >= 2 times, a namespaced option, or an option of a sub-command; distinct by (declaration signature, argv)"
-	runProp(t, "C01", func(t *rapid.T) *ParseCase { return genParseCase(t, c01Decl, c01Argv) }, c01Oracle)
+	S("C01").Rule = "declaration (all option types incl. slices, maps, pointers, callbacks, custom unmarshaler; groups nested <= 2 with namespaces and delimiters . - :: and empty; commands depth <= 3 by tag and programmatic; random initial field values; untagged plain fields) x planned argv with repeated occurrences in mixed spellings and clusters (in a sixth of the cases with unknown options recovered by an UnknownOptionHandler in between) x {HelpFlag, PassDoubleDash, PassAfterNonOption}; oracle: reference semantics R (values, callback log) + plain fields unchanged. non-trivial: successful parse with >= 2 occurrences including a multi-valued/callback option given >= 2 times, a namespaced option, or an option of a sub-command; distinct by (declaration signature, argv)"
+	runProp(t, "C01", genC01, c01Oracle)
+}
+
+var c01ArgvUnknown = func() *ArgvCfg { a := *c01Argv; a.WUnknown = 10; return &a }()
+
+func genC01(t *rapid.T) *ParseCase {
+	if rapid.IntRange(0, 5).Draw(t, "withHandler") != 0 {
+		return genParseCase(t, c01Decl, c01Argv)
+	}
+	// unknown options, recovered by an UnknownOptionHandler that leaves the
+	// arguments alone, in between the occurrences of the declared options
+	c := genParseCase(t, c01Decl, c01ArgvUnknown)
+	c.Handler = &HandlerSpec{Mode: "same"}
+	return c
 }
